@@ -362,6 +362,33 @@ def engine(name, projector, n_quick, n_thorough, **kw):
     return d
 
 
+import re as _re2
+
+
+class FaultsProj:
+    """`which`: 'client' = what the client received and what is left behind (C15),
+    'log' = the access-log record next to what the client received (C19)"""
+    def __init__(self, which):
+        self.which = which
+
+    def step(self, kind, op, a, b):
+        if kind == 'setup':
+            return a, b, False
+        if kind == 'drain':
+            return (a, b, True) if self.which == 'client' else None
+        if kind != 'fault':
+            return None
+        def proj(l):
+            m = _re2.match(r'(fault status=\S+ complete=\S+ page=\S+ bodylen=\S+ at=\S+) log=\[(.*?)\] (residue=.*)$', l)
+            if not m:
+                return l
+            if self.which == 'client':
+                return m.group(1) + ' ' + m.group(3)
+            return m.group(1).split(' at=')[0] + ' log=[' + m.group(2) + ']'
+        interesting = ('mode=ok' not in op) if self.which == 'client' else True
+        return proj(a), proj(b), interesting
+
+
 class MwOnlyProj:
     """of the buffer engine, only the middleware runs (bodies through request/response buffering)"""
     def step(self, kind, op, a, b):
@@ -415,7 +442,27 @@ def cli_extra(run):
 import os
 
 
+RULE_FAULTS = ("engine faults: one request per op through the complete stack inside a synctest bubble - a real http.Server for the proxy's "
+               "handler chain on an in-memory listener, a raw client connection, and a byte-level scripted target: dial refused, close "
+               "before any byte, garbage, close in the status line, close in the headers, silence past the target timeout, answers "
+               "1 ns / 100 ms either side of the timeout, close in the body (short and long), close inside a chunk, a WebSocket upgrade, "
+               "complete answers of several statuses and sizes; x response buffering on/off x request buffering on/off x custom error "
+               "pages or not x two target timeouts x client aborts x routed/unrouted hosts x configured extra log headers; each case ends "
+               "with a pause whose drain must take 0 ns. ")
+
 PROPS = {
+    'C15': dict(engines=[engine('faults', lambda: FaultsProj('client'), 40, 4000)],
+                rule=RULE_FAULTS + "Compared for C15: status, completeness, which page, body length, virtual time of the client's answer, "
+                     "requests left in the target's in-flight map, duration of the final drain. Non-trivial = a fault (not a complete answer).",
+                assumptions=["which Go error a given wire fault produces and what net/http has flushed to the client before an aborted "
+                             "handler are runtime behaviour, modelled per fault point", "request bodies are not sent in this engine (under "
+                             "synctest net/http's 200 ms body-probe timer is scheduler-dependent)"]),
+    'C19': dict(engines=[engine('faults', lambda: FaultsProj('log'), 40, 4000)],
+                rule=RULE_FAULTS + "Compared for C19: the number of access-log records (must be 1) and the record's status, byte count, method, "
+                     "host, path, query, request id, service, target and configured extra request/response headers, next to what the client "
+                     "received. Every op is non-trivial.",
+                assumptions=["that net/http delivers to the client the status and bytes passed to the ResponseWriter is assumed (an aborted "
+                             "handler's unflushed bytes are counted in the record)", "duration and timestamps are not compared"]),
     'C20': dict(
         engines=[], extra=cli_extra,
         rule="engine cli (the binary built from /repo's working tree, black box): (1) for --http-port, --https-port, --debug every pair "
